@@ -163,6 +163,9 @@ def execute_large(case):
     raw = [m[k].tobytes() for k in range(L)]
     spec = synth.product_spec("1.1" if tc == "C*8" else "1.5", images=[synth.image_spec("HH", None, L, P, tc, samples=raw)])
     files, _ = synth.build(spec)
+    if case.get("pad"):
+        name = synth.file_names(spec)["img"][0]
+        files[name] = files[name] + bytes((7 * k + 1) % 256 for k in range(case["pad"]))
     fails = []
     view = "=u2" if tc == "IU2" else "=u4"
     want = m.astype(view)
@@ -254,6 +257,17 @@ def large_plan(tier):
     # (record lengths are limited to 999999 by the 6-digit header field; rpc and P solve rpc x (prefix + bps P) - prefix == span)
     for tc, rpc, P in (("IU2", 2, 16336), ("C*8", 2, 4062), ("IU2", 2, 262096), ("C*8", 2, 65502), ("IU2", 4, 262072), ("C*8", 3, 87336), ("IU2", 4, 393144), ("C*8", 4, 98253), ("IU2", 8, 262060), ("C*8", 7, 74840), ("IU2", 10, 419344), ("C*8", 9, 116448)):
         cases.append({"type": tc, "L": 2 * rpc + 1, "P": P, "rpc": rpc, "fs": "local" if rpc == 3 else "mcfs"})
+    # widths at which a quantity coincides with another one: pixel payload == prefix length (or half / twice it), record
+    # length a power of two, payload == 720 (the descriptor length)
+    for tc, widths in (("IU2", (96, 48, 192, 32, 160, 416, 360, 264)), ("C*8", (68, 34, 136, 60, 188, 90, 22))):
+        for P in widths:
+            for rpc in (2, 3, 1024):
+                cases.append({"type": tc, "L": 7, "P": P, "rpc": rpc, "fs": "mcfs", "pad": 0})
+    # bytes behind the last record (files padded to a block size): never part of the image
+    for tc, L, P in (("IU2", 10, 3), ("C*8", 7, 2)):
+        for pad in (1, 86, 512):
+            for rpc in (1, 3, 4, 7, 1024):
+                cases.append({"type": tc, "L": L, "P": P, "rpc": rpc, "fs": "mcfs" if pad != 86 else "local", "pad": pad})
     # ~100 MB images: selections beyond 64 MiB, single requests of 5 MB / 80 MB / 96 MB
     cases.append({"type": "IU2", "L": 1300, "P": 40000, "rpc": None, "fs": "mcfs"})
     cases.append({"type": "IU2", "L": 1300, "P": 40000, "rpc": 64, "fs": "mcfs"})
